@@ -39,7 +39,7 @@ GRIDS = {
 INVARIANTS = {
     "C01": ["TypeOK", "C01"],
     "C02": ["TypeOK", "C02", "AbsInv"],
-    "C03": ["TypeOK", "C03", "AbsInv"],
+    "C03": ["TypeOK", "C03", "AbsInv", "InChainSame"],
     "C04": ["TypeOK", "C04", "C04Cover", "C04First", "C04NoInvent", "SegSame"],
     "C08": ["TypeOK", "C08", "FlushCandidateKept", "NoSurprise"],
 }
@@ -362,9 +362,29 @@ def rand_stream(rng, p, n, prop):
     return s[:n]
 
 
+def long_traces(prop, tier, rng, core, util):
+    """A few very long streams (thousands of frames, max_length up to 300): anything that only shows after many frames --
+    a counter wrapping, an internal cache boundary, an index past a power of two -- is out of reach of short streams."""
+    out = []
+    for k in range(3 if tier == "quick" else 12):
+        mx = [3, 40, 300, 7, 64, 129][k % 6]
+        mn = rng.randint(1, min(mx, 3))
+        sl = rng.choice([1, 2, mx // 3, mx - 1]) if mx > 2 else rng.randint(0, mx - 1)
+        sl = min(sl, mx - 1)
+        p = {"min": mn, "max": mx, "sil": sl, "imin": 0 if prop == "C04" else rng.choice([0, 0, min(mx - 1, 2)]), "isil": rng.randint(0, 2),
+             "strict": rng.random() < .5, "drop": rng.random() < .5}
+        n = rng.randint(2000, 4500) if tier == "quick" else rng.randint(4000, 12000)
+        s = rand_stream(rng, p, n, prop)
+        t = run_trace(core, util, p, s, rng.choice(["gen", "cb"]), rng.choice(FTYPES), rng.choice(["callable", "DataValidator"]))
+        t.pop("tk")
+        t["peer"] = tokens_of(t)
+        out.append(t)
+    return out
+
+
 def gen_traces(prop, tier, rng, core, util, budget_events):
     """Yield trace records from the real code until the event budget is used."""
-    traces = []
+    traces = long_traces(prop, tier, rng, core, util)
     events = 0
     maxn = 60 if tier == "quick" else 400
     while events < budget_events:
